@@ -57,21 +57,25 @@ def rundemos(dst):
             tests += re.findall(r"^func (Test\w+)\(", open(f).read(), re.M)
         r = subprocess.run(["go", "test", "-vet=off", "-count=1", "-run", "^(" + "|".join(tests) + ")$", "./" + pd + "/"], cwd=dst, env=ENV, capture_output=True, text=True)
         res.append((r.returncode == 0, (r.stdout + r.stderr)[-600:]))
+    bypkg = {}
     for demo in demos:
         if any(demo in fs for fs in own.values()):
             continue
         src = open(demo).read()
         m = re.search(r"^package (\w+)", src, re.M)
-        pkg = m.group(1).replace("_test", "")
+        bypkg.setdefault(m.group(1).replace("_test", ""), []).append(demo)
+    for pkg, files in bypkg.items():
         pd = PKGDIR.get(pkg)
         if pd is None:
             res.append((False, "unknown package " + pkg)); continue
         if pkg in NEEDS_PG:
             for f in glob.glob(os.path.join(dst, pd, "*_test.go")):
                 os.remove(f)
-        name = os.path.basename(demo).replace(".txt", "")
-        shutil.copy(demo, os.path.join(dst, pd, "zz_" + name))
-        tests = re.findall(r"^func (Test\w+)\(", src, re.M)
+        tests = []
+        for demo in files:
+            name = os.path.basename(demo).replace(".txt", "")
+            shutil.copy(demo, os.path.join(dst, pd, "zz_" + name))
+            tests += re.findall(r"^func (Test\w+)\(", open(demo).read(), re.M)
         r = subprocess.run(["go", "test", "-vet=off", "-count=1", "-run", "^(" + "|".join(tests) + ")$", "./" + pd + "/"], cwd=dst, env=ENV, capture_output=True, text=True)
         res.append((r.returncode == 0, (r.stdout + r.stderr)[-600:]))
     return res
